@@ -433,6 +433,9 @@ func (e *Engine) frameCheck() *FuncResult {
 		}
 		isRefVal := func(v ssa.Value) bool {
 			t := v.Type()
+			if types.Identical(t, types.Universe.Lookup("error").Type()) {
+				return false // error values are opaque and never written through (sentinel errors are package-level)
+			}
 			if refType(t) {
 				return true
 			}
